@@ -1,0 +1,40 @@
+//! Verification seam H10 (compiled only with `--cfg loom --cfg excsn_fibre_verif`).
+//!
+//! The channels keep their payload slots in `std::cell::UnsafeCell`, which loom cannot see (see
+//! `internal/sync.rs`). This module gives every slot a *shadow* `loom::cell::UnsafeCell<()>`, keyed
+//! by the slot's address: the one-line calls next to each real slot access report "this thread
+//! writes / reads the slot now", and loom's causality check then verifies that every write to a
+//! slot happens-after all earlier accesses of it and every read happens-after the last write -
+//! i.e. that the index/sequence protocol really orders the producer's store of a value before the
+//! consumer's copy-out, and the consumer's copy-out before the producer's reuse of the slot.
+//! Nothing here synchronises: the table is a `std` mutex (invisible to loom, never held across a
+//! loom operation), so it adds no happens-before edge of its own.
+use std::collections::HashMap;
+use std::sync::Mutex;
+
+static TABLE: Mutex<Option<HashMap<usize, loom::cell::UnsafeCell<()>>>> = Mutex::new(None);
+
+/// Forget every shadow cell. A harness calls this at the start of each loom execution (cells of a
+/// previous execution belong to a dead loom runtime).
+pub fn reset() {
+  *TABLE.lock().unwrap_or_else(|e| e.into_inner()) = Some(HashMap::new());
+}
+
+fn with_cell(addr: usize, f: impl FnOnce(&loom::cell::UnsafeCell<()>)) {
+  let mut g = TABLE.lock().unwrap_or_else(|e| e.into_inner());
+  let map = g.get_or_insert_with(HashMap::new);
+  let cell = map.entry(addr).or_insert_with(|| loom::cell::UnsafeCell::new(()));
+  f(cell);
+}
+
+/// The calling thread writes (or moves a value out of) the slot at `addr`.
+#[inline]
+pub(crate) fn write(addr: usize) {
+  with_cell(addr, |c| c.with_mut(|_| ()));
+}
+
+/// The calling thread reads the slot at `addr` without modifying it.
+#[inline]
+pub(crate) fn read(addr: usize) {
+  with_cell(addr, |c| c.with(|_| ()));
+}
